@@ -727,11 +727,11 @@ pub fn run_c11(h: &History, st: &mut Stats) -> Outcome {
         // stroke of s.P with width s.w (dashes likewise) under the identity
         if let Op::Stroke { path, style, opts, .. } = &step.op {
             let t = mk::mat(&ctm);
-            if t.m11 == t.m22 && t.m11 > 0. && t.m11 != 1. && t.m12 == 0. && t.m21 == 0. {
+            if similarity_scale(&t).is_some() {
                 match mk::guarded(budget, || stroke_similarity(path, style, opts, &ctm, w, p.surfs[si].h())) {
                     Ok(Ok(())) => st.count("c11.stroke_similarity_checked"),
                     Ok(Err(d)) => {
-                        return viol("c11.stroke-width-does-not-scale", i, format!("stroke under the uniform scale {} differs from the stroke of the scaled path with the scaled style under the identity: {}", t.m11, d));
+                        return viol("c11.stroke-width-does-not-scale", i, format!("stroke under the similarity transform {:?} (scale {}) differs from the stroke of the transformed path with the scaled style under the identity: {}", t, similarity_scale(&t).unwrap_or(0.), d));
                     }
                     Err(pi) => {
                         st.abort(&panic_class(&pi));
@@ -858,13 +858,34 @@ fn compare_regions(got: &[u32], reference: &[u32], w: i32, h: i32) -> Result<(),
     Ok(())
 }
 
+/// Some(s): t is a similarity (rotation or reflection, uniform scale s, translation) other than
+/// the identity - the transforms under which "the image under T of the user-space stroke" is
+/// itself a stroke, of the transformed path with width, dashes and offset times s
+fn similarity_scale(t: &raqote::Transform) -> Option<f32> {
+    let (a, b, c, d) = (t.m11 as f64, t.m12 as f64, t.m21 as f64, t.m22 as f64);
+    let s2 = a * a + b * b;
+    if !(s2 > 1e-6 && s2 < 1e6) || !t.m31.is_finite() || !t.m32.is_finite() {
+        return None;
+    }
+    if ((c * c + d * d) - s2).abs() > 1e-5 * s2 || (a * c + b * d).abs() > 1e-5 * s2 {
+        return None;
+    }
+    if *t == raqote::Transform::identity() {
+        return None;
+    }
+    Some(s2.sqrt() as f32)
+}
+
 fn stroke_similarity(path: &PathSpec, style: &StrokeSpec, opts: &Opts, ctm: &Mat, w: i32, h: i32) -> Result<(), String> {
     use raqote::*;
     if w <= 0 || h <= 0 {
         return Ok(());
     }
     let t = mk::mat(ctm);
-    let s = t.m11;
+    let s = match similarity_scale(&t) {
+        Some(s) => s,
+        None => return Ok(()),
+    };
     let white = Source::Solid(SolidSource { r: 255, g: 255, b: 255, a: 255 });
     let o = DrawOptions { blend_mode: BlendMode::SrcOver, alpha: 1., antialias: if opts.aa { AntialiasMode::Gray } else { AntialiasMode::None } };
     let mut a = DrawTarget::new(w, h);
